@@ -95,7 +95,7 @@ func runC15(rc *RC) {
 		// steps these pile up unscheduled and each step has to look at all of them
 		rc.S.Strat, strat = simrt.StratUniform, "uniform(wrap)"
 	}
-	acceptMode := ch.Int("workload", 7) // 0-2 Accept, 3-4 Expect, 5 no listener, 6 an Expect that is given up, then Accept
+	acceptMode := ch.Int("workload", 8) // 0-2 Accept, 3-4 Expect, 5 no listener, 6 an Expect that is given up, then Accept, 7 a second Expect takes the first one over
 	reverse := ch.Chance("workload", 1, 3) && !wrap
 	payload := genPayload(rc, block)
 	if wrap {
@@ -110,6 +110,14 @@ func runC15(rc *RC) {
 	rbuf := []int{1, 2, 7, 64, 1000, 70000}[ch.Int("workload", 6)]
 	sid := "sid" + strconv.Itoa(ch.Int("workload", 1000))
 	overflow := !wrap && acceptMode != 5 && ch.Chance("workload", 1, 6)
+	// the opener closes as soon as its own data is out, without waiting for the acceptor's writer (acknowledged carrier:
+	// that writer is inside Write, waiting for acknowledgements, most of the time)
+	earlyClose := reverse && closer == 0 && ack && !wrap && ch.Chance("workload", 1, 2)
+	if earlyClose {
+		lazyTail = false
+		// enough data for the acceptor's writer to be busy for a while
+		payload2 = bytes.Repeat([]byte("0123456789abcdefghijklmnopqrstuv"), 1+ch.Int("workload", 40))
+	}
 	tailA, tailB := 0, 0
 	if lazyTail && !overflow {
 		if closer == 1 && len(payload) > 0 {
@@ -129,7 +137,7 @@ func runC15(rc *RC) {
 			payload = append(payload, 'x')
 		}
 	}
-	rc.Describe("overflow=%v strategy=%s block=%d carrier-iq=%v accept=%d reverse=%v len=%d len2=%d closer=%d readbuf=%d wrap=%v tailA=%d tailB=%d", overflow, strat, block, ack, acceptMode, reverse, len(payload), len(payload2), closer, rbuf, wrap, tailA, tailB)
+	rc.Describe("overflow=%v strategy=%s block=%d carrier-iq=%v accept=%d reverse=%v len=%d len2=%d closer=%d readbuf=%d wrap=%v tailA=%d tailB=%d early-close=%v", overflow, strat, block, ack, acceptMode, reverse, len(payload), len(payload2), closer, rbuf, wrap, tailA, tailB, earlyClose)
 	rc.CaseKey = fmt.Sprint(block, ack, acceptMode, reverse, closer)
 	bJID := jid.MustParse("example.net")
 
@@ -206,6 +214,23 @@ func runC15(rc *RC) {
 				}
 				expectGivenUp = true
 				connB, acceptErr = l.Accept()
+			case acceptMode == 7:
+				// a second Expect for the same stream replaces the first (which returns its context's error); the stream
+				// goes to the second
+				var firstErr error
+				firstDone := false
+				first := rc.Spawn("expect-first", func() {
+					_, firstErr = l.Expect(ctx, jid.JID{}, sid)
+					firstDone = true
+				})
+				simrt.WaitUntil("expect-first-blocked", func() bool { return strings.HasPrefix(first.Site, "blocked:ibb/listen.go") || first.Done() })
+				rc.Spawn("expect-first-check", func() {
+					simrt.WaitUntil("expect-first-done", func() bool { return firstDone || acceptDone })
+					simrt.Sleep(time.Second)
+					rc.Check("C15.c1", "replaced-expect-not-released", firstDone && firstErr != nil, "a second Expect took the stream over but the first one has not returned an error (done=%v err=%v)", firstDone, firstErr)
+				})
+				expectGivenUp = true
+				connB, acceptErr = l.Expect(ctx, jid.JID{}, sid)
 			case acceptMode >= 3:
 				connB, acceptErr = l.Expect(ctx, jid.JID{}, sid)
 			default:
@@ -241,7 +266,7 @@ func runC15(rc *RC) {
 		if accT != nil {
 			// the application is inside Accept / Expect before the peer opens the stream
 			simrt.WaitUntil("opener:acceptor-ready", func() bool {
-				return (strings.HasPrefix(accT.Site, "blocked:ibb/listen.go") && (acceptMode != 6 || expectGivenUp)) || accT.Done()
+				return (strings.HasPrefix(accT.Site, "blocked:ibb/listen.go") && ((acceptMode != 6 && acceptMode != 7) || expectGivenUp)) || accT.Done()
 			})
 		}
 		octx, ocancel := context.WithTimeout(ctx, 30*time.Second)
@@ -266,7 +291,7 @@ func runC15(rc *RC) {
 		}
 	})
 	// phase 1: open / accept / write everything
-	st := rc.S.Run(func() bool { return openDone && acceptDone && writeDoneA && writeDoneB }, 4000000, 2*time.Minute)
+	st := rc.S.Run(func() bool { return openDone && acceptDone && writeDoneA && (writeDoneB || earlyClose) }, 4000000, 2*time.Minute)
 	// c1: Open succeeds only when the peer accepted
 	rc.Evals["C15.c1"]++
 	if acceptMode == 5 {
@@ -337,6 +362,30 @@ func runC15(rc *RC) {
 			rc.Failf("C15.c4", "refused-packet-disturbs-stream", "the reader got %d bytes, the acknowledged packets carry %d bytes (buffer limit %d, %d written): a refused packet reached the reader or acknowledged data was lost", len(rdB.got), len(accepted), 3*block, len(payload))
 		}
 		checkPrefix0(rc, "a->b overflow", rdB.got, payload)
+		finishC15(rc, p, &phase)
+		return
+	}
+	if earlyClose && !overflow && openDone && openErr == nil && acceptErr == nil && writeDoneA && werrA == nil {
+		// the opener closes while the acceptor's application is still inside Write/Flush (waiting for acknowledgements):
+		// the acceptor's writer may fail, its reader still gets everything the opener wrote and then end-of-file
+		phase = 1
+		rc.S.Run(func() bool { return rdB.done && opener.Done() && writeDoneB }, 400000, 2*time.Minute)
+		rc.Evals["C15.c2"]++
+		rc.Fire("close-during-peer-write")
+		if !opener.Done() {
+			rc.Failf("C15.c2", "close-stuck:peer-writing", "the opener's Close has not returned while the acceptor was writing; stuck %v", rc.S.Stuck())
+		}
+		if !writeDoneB {
+			rc.Failf("C15.c2", "write-stuck-after-peer-close", "the acceptor's Write/Flush has not returned after the opener closed the stream; stuck %v", rc.S.Stuck())
+		}
+		if !rdB.done || !rdB.eof {
+			rc.Failf("C15.c2", "no-eof-after-close:a->b:peer-writing", "the opener closed the stream (Close returned %v) while the acceptor was writing, and the acceptor's reader did not reach end-of-file (done=%v err=%v, %d/%d bytes); stuck %v", closeErrA, rdB.done, rdB.err, len(rdB.got), len(payload), rc.S.Stuck())
+		} else if !bytes.Equal(rdB.got, payload) {
+			rc.Failf("C15.c2", "bytes-lost-at-close:a->b:peer-writing", "after Close the reader has %d bytes, %d were written", len(rdB.got), len(payload))
+		}
+		if !bytes.HasPrefix(payload2, rdA.got) {
+			rc.Failf("C15.c2", "bytes-differ:b->a:peer-writing", "the opener's reader got bytes that are not a prefix of what the acceptor wrote")
+		}
 		finishC15(rc, p, &phase)
 		return
 	}
